@@ -9,11 +9,11 @@ import XotModel.Lemmas.FparseHistReach
 namespace XotModel
 open HTree Repair
 
-/-- The store right after the accepted parse satisfies `Store.VOK`. -/
+/-- The store right after the accepted parse satisfies `Store.FpvdOK`. -/
 theorem fpvd_parse_VOK {env : Env} {text : Str} {p : Parsed} (henv : envOK env = true)
     (h : parseString .document env text = .ok p) (hg : NoReservedDecls p.env p.tree = true)
     (hpi : PlainPiTargets p.env p.tree = true) (htab : nameTableOK p.env = true) :
-    ((PStore.init env).run [.parse .document text]).store.VOK := by
+    ((PStore.init env).run [.parse .document text]).store.FpvdOK := by
   obtain ⟨h1, _, h3⟩ := PStore.fph_parse_init env h
   obtain ⟨c1, c2, _, _, _⟩ := fph_accepted_value_conditions henv h hg hpi
   have hinv : ((PStore.init env).run [.parse .document text]).forest.Inv :=
@@ -24,7 +24,7 @@ theorem fpvd_parse_VOK {env : Env} {text : Str} {p : Parsed} (henv : envOK env =
     rw [h3]; exact c1
   · show nameTableOK ((PStore.init env).run [.parse .document text]).env = true
     rw [h3]; exact htab
-  · show Forest.QF (VOKv ((PStore.init env).run [.parse .document text]).env)
+  · show Forest.fpvQF (fpvdVal ((PStore.init env).run [.parse .document text]).env)
       ((PStore.init env).run [.parse .document text]).forest
     rw [fpvd_QF_iff, h1, h3]
     intro r hr
